@@ -367,6 +367,41 @@ def explore(chk):
                     chk.property_failure({"scc": p["text"], "nodes": str(c[4])[:500]}, "scc reader: a caption has unbalanced italic style nodes"); break
 
 
+    # ---- roll-up rows that each start in italics, read with and without simulate_roll_up (the rows of several carriage
+    #      returns are then joined into one caption): every caption has balanced, non-nesting style nodes
+    import pycaption as _pc
+    sub = chk.sub("rollup_italic_rows")
+    for k_ in range(30 if chk.tier == "quick" else 600):
+        doubled = bool(k_ % 2)
+        depth = sub.choice(["RU2", "RU3", "RU4"])
+        rows = []
+        for r_ in range(sub.randint(2, 5)):
+            rows.append((sub.random() < 0.7, sub.choice(["Hush", "dark", "row", "AB", "x y"])))
+        lines = ["Scenarist_SCC V1.0", ""]
+        frame = 30
+        for ri, (ital, text) in enumerate(rows):
+            words = ([sccgen.CMD[depth]] if ri == 0 else []) + [sccgen.CMD["CR"], sccgen.pac(15, 0)] + ([sccgen.midrow(True)] if ital else [])
+            if doubled:
+                words = [w for w in words for _ in range(2)]
+            words += sccgen.chars_to_words(text)
+            lines += [sccgen.timecode(frame, False) + "\t" + " ".join(words), ""]
+            frame += len(words) + 40
+        text_ = "\n".join(lines) + "\n"
+        for sim in (False, True):
+            chk.case(key=("rollup_italics", text_, sim), nontrivial=True); chk.count("rollup_italic_rows")
+            try:
+                cs = core.POOL.get(_pc.SCCReader).read(text_, simulate_roll_up=sim)
+            except _pc.exceptions.CaptionLineLengthError:
+                chk.count("rollup_italic_rows_joined_too_long"); continue      # simulated roll-up joins rows into one line
+            except Exception as e:
+                chk.property_failure({"scc": text_, "simulate_roll_up": sim, "error": repr(e)[:300]}, "scc reader raised on a roll-up stream with italic rows"); continue
+            for c in cs.get_captions("en-US"):
+                nodes = capio.obs_nodes(c.nodes)
+                if not sccgen.balanced([("S", n[1]) if n[0] == "S" else n for n in nodes]):
+                    chk.property_failure({"scc": text_, "simulate_roll_up": sim, "nodes": str(nodes)[:500]},
+                                         "scc reader: a roll-up caption has unbalanced or nested italic style nodes"); break
+
+
 def replay(path):
     print(json.dumps(json.load(open(path)), indent=1)[:6000])
     return 0
